@@ -48,7 +48,21 @@ def _verify_one(key):
     con = REGISTRY[key]
     mon = getattr(con, "monitor", None)
     r = verify.verify_function(key, base.TABLE, base.FIELDS, monitor=mon, cex_fn=cex.generic_cex)
-    return r.to_json()
+    out = r.to_json()
+    out["bounded"] = None
+    if getattr(con, "corpus", None) is not None:
+        from . import bounded
+        try:
+            env = verify.make_env(key, base.TABLE, base.FIELDS, mon)
+            out["bounded"] = bounded.run_contract(env, con, pid=_verify_one.pid)
+        except Exception as e:
+            import traceback
+            out["bounded"] = {"function": key, "evaluations": 0, "failures": [],
+                              "error": "%s: %s" % (type(e).__name__, e), "trace": traceback.format_exc()[-800:]}
+    return out
+
+
+_verify_one.pid = None
 
 
 def run_functions(keys, jobs=None):
@@ -93,6 +107,8 @@ def check_property(pid, tier="quick", seed=0, extra_checks=None):
     if not keys:
         print("FAULT property=%s no function under contract" % pid)
         return 3
+    _verify_one.pid = pid
+    os.environ["VERIF_TIER_ACTIVE"] = tier
     results = run_functions(keys)
     n_obl = n_dis = 0
     violations, undecided, faults, known_hits = [], [], [], []
@@ -132,8 +148,25 @@ def check_property(pid, tier="quick", seed=0, extra_checks=None):
             else:
                 n_obl += 1
                 undecided.append((ob["name"], "solver: %s" % ob["reason"]))
-    # extra (bounded / structural) checks registered by the property module
+    # bounded stand-in: runtime contracts on the real functions over the enumerated corpus
     extra_report = []
+    bounded_vios = []
+    for fr in results:
+        b = fr.get("bounded")
+        if not b:
+            continue
+        rep = {k: v for k, v in b.items() if k != "failures"}
+        rep["kind"] = "runtime contracts on the real function (bounded, not counted as proved)"
+        rep["failures"] = len(b.get("failures", []))
+        extra_report.append(rep)
+        if b.get("error"):
+            faults.append((fr["function"], "bounded harness: " + b["error"]))
+        for fl in b.get("failures", []):
+            if fl.get("harness_error"):
+                faults.append((fr["function"], "bounded harness: " + fl["observed"]["value"]))
+            else:
+                bounded_vios.append((fr, fl))
+    # extra (bounded / structural) checks registered by the property module
     if extra_checks:
         for chk in extra_checks:
             rep = chk(tier, seed)
@@ -167,6 +200,23 @@ def check_property(pid, tier="quick", seed=0, extra_checks=None):
                        "counterexample": cexrec}, fh, indent=1, default=str)
         confirmed = bool(cexrec.get("confirmed"))
         vio_lines.append("VIOLATION property=%s replay=%s%s" % (pid, path, "" if confirmed else " no-failing-input-found"))
+    for fr, fl in bounded_vios:
+        name = "%s/post[%s]" % (fr["function"], fl["clause"])
+        kf = match_known(known, pid, {"name": name, "sig": ["bounded"], "input": fl["input"]})
+        if kf is not None:
+            if kf["id"] not in seen_known:
+                seen_known.add(kf["id"])
+                print("KNOWN-FINDING: property=%s %s" % (pid, kf["what"]))
+            continue
+        h = sig_hash([name, json.dumps(fl["input"], sort_keys=True, default=str)])
+        path = os.path.join(REPLAYS, pid, "bounded_%s.json" % h)
+        with open(path, "w") as fh:
+            json.dump({"property": pid, "obligation": name, "function": fr["function"], "clause": fl["clause"],
+                       "stage": "bounded stand-in (runtime contract on the real function)",
+                       "counterexample": {"inputs": fl["input"], "observed": fl["observed"], "replayed": True,
+                                          "confirmed": True}}, fh, indent=1, default=str)
+        if len([l for l in vio_lines if "bounded_" in l]) < 10:
+            vio_lines.append("VIOLATION property=%s replay=%s" % (pid, path))
     # one line per failing obligation name is enough for the reader; keep all replay files
     printed = set()
     for line in vio_lines:
@@ -175,7 +225,7 @@ def check_property(pid, tier="quick", seed=0, extra_checks=None):
         print("UNDECIDED property=%s obligation=%s reason=%s" % (pid, name, why.replace("\n", " ")[:300]))
     for name, why in faults:
         print("FAULT property=%s function=%s %s" % (pid, name, why.replace("\n", " ")[:600]))
-    if n_obl == 0 and not known_hits:
+    if n_obl == 0 and not known_hits and not undecided:
         print("FAULT property=%s zero obligations generated" % pid)
         faults.append(("-", "zero obligations"))
     wall = time.time() - t0
@@ -206,10 +256,10 @@ def check_property(pid, tier="quick", seed=0, extra_checks=None):
         json.dump(ev, fh, indent=1, default=str)
     print("property=%s tier=%s functions=%d obligations=%d discharged=%d known=%d violations=%d undecided=%d wall=%.1fs"
           % (pid, tier, len(keys), n_obl, n_dis, len(seen_known), len(vio_lines), len(undecided), wall))
-    if faults:
-        return 3
     if vio_lines:
         return 1
+    if faults:
+        return 3
     if undecided:
         return 2
     return 0
